@@ -21,10 +21,15 @@ pub struct Case {
     pub input: Vec<u8>,
     /// self-delimiting: length of the valid encoding at the start of `input`
     pub enc_len: usize,
-    /// self-delimiting: the value that was written
-    pub expected: Option<Val>,
-    /// batch: values written back to back, read back through one context
-    pub batch: Vec<(String, Val)>,
+    /// self-delimiting: the value that was written (Debug rendering of the reference value)
+    pub expected: Option<String>,
+    /// script: catalogue entries decoded one after another through one context, each with its
+    /// expectation: `ok:<value>` | `err` | `err:<substring of the error>` | `any`
+    pub batch: Vec<(String, String)>,
+    /// script: mismatches of items before this index are not this property's business
+    pub judge_from: usize,
+    /// script: also require that exactly `input.len() - enc_len` bytes are left afterwards
+    pub check_rem: bool,
     /// what the simulator did to the bytes
     pub fault: String,
     pub fault_kind: String,
@@ -40,6 +45,8 @@ impl Case {
             enc_len: 0,
             expected: None,
             batch: vec![],
+            judge_from: 0,
+            check_rem: true,
             fault: String::new(),
             fault_kind: "none".into(),
         }
@@ -52,8 +59,10 @@ impl Case {
             "read_as": self.read_as,
             "input_hex": hex(&self.input),
             "enc_len": self.enc_len,
-            "expected": self.expected.as_ref().map(|v| format!("{v:?}")),
-            "batch": self.batch.iter().map(|(n, v)| json!([n, format!("{v:?}")])).collect::<Vec<_>>(),
+            "expected": self.expected,
+            "batch": self.batch.iter().map(|(n, v)| json!([n, v])).collect::<Vec<_>>(),
+            "judge_from": self.judge_from,
+            "check_rem": self.check_rem,
             "fault": self.fault,
             "fault_kind": self.fault_kind,
         })
@@ -66,9 +75,17 @@ impl Case {
             read_as: v["read_as"].as_str().unwrap().into(),
             input: unhex(v["input_hex"].as_str().unwrap()),
             enc_len: v["enc_len"].as_u64().unwrap_or(0) as usize,
-            // expected values are compared through their Debug rendering on replay
-            expected: None,
-            batch: vec![],
+            expected: v["expected"].as_str().map(|s| s.to_string()),
+            batch: v["batch"]
+                .as_array()
+                .map(|a| {
+                    a.iter()
+                        .map(|x| (x[0].as_str().unwrap().to_string(), x[1].as_str().unwrap().to_string()))
+                        .collect()
+                })
+                .unwrap_or_default(),
+            judge_from: v["judge_from"].as_u64().unwrap_or(0) as usize,
+            check_rem: v["check_rem"].as_bool().unwrap_or(true),
             fault: v["fault"].as_str().unwrap_or("").into(),
             fault_kind: v["fault_kind"].as_str().unwrap_or("none").into(),
         }
@@ -98,31 +115,11 @@ pub fn real_decode(e: &Entry, input: &[u8]) -> (Outcome<(Val, usize)>, Meter) {
     })
 }
 
-/// expected values in replay files are Debug strings; in live runs they are `Val`s
-pub enum Expect<'a> {
-    Val(&'a Val),
-    Text(&'a str),
-}
-impl Expect<'_> {
-    fn matches(&self, v: &Val) -> bool {
-        match self {
-            Expect::Val(x) => *x == v,
-            Expect::Text(s) => format!("{v:?}") == *s,
-        }
-    }
-    fn show(&self) -> String {
-        match self {
-            Expect::Val(x) => x.brief(),
-            Expect::Text(s) => s.to_string(),
-        }
-    }
-}
-
 /// with `--trace-cases` every case is written out (and flushed) before it is evaluated, so that the
 /// supervisor can attribute a worker death to the case in flight
 pub static CASE_LOG: std::sync::Mutex<Option<std::fs::File>> = std::sync::Mutex::new(None);
 
-pub fn eval(cat: &Catalog, case: &Case, expected_text: Option<&str>, batch_text: &[(String, String)]) -> Evaluated {
+pub fn eval(cat: &Catalog, case: &Case) -> Evaluated {
     if let Ok(mut g) = CASE_LOG.lock() {
         if let Some(f) = g.as_mut() {
             use std::io::Write;
@@ -189,19 +186,15 @@ pub fn eval(cat: &Catalog, case: &Case, expected_text: Option<&str>, batch_text:
             Evaluated { finding, outcome: out.class(), meter }
         }
         "self-delimiting" => {
-            let exp = match (&case.expected, expected_text) {
-                (Some(v), _) => Expect::Val(v),
-                (None, Some(t)) => Expect::Text(t),
-                _ => panic!("self-delimiting case without expected value"),
-            };
+            let exp = case.expected.as_deref().expect("self-delimiting case without expected value");
             let (out, meter) = real_decode(e, &case.input);
             let want_rem = case.input.len() - case.enc_len;
             let finding = match &out {
                 Outcome::Ok((v, rem)) => {
-                    if !exp.matches(v) {
+                    if format!("{v:?}") != exp {
                         Some(Finding {
                             class: "value".into(),
-                            detail: format!("decoded {} instead of {}", v.brief(), exp.show()),
+                            detail: format!("decoded {} instead of {}", v.brief(), brief(exp)),
                         })
                     } else if *rem != want_rem {
                         Some(Finding {
@@ -224,53 +217,32 @@ pub fn eval(cat: &Catalog, case: &Case, expected_text: Option<&str>, batch_text:
             };
             Evaluated { finding, outcome: out.class(), meter }
         }
-        "batch" => {
-            // values written one after another are read back one after another through one context
-            let names: Vec<String> = if case.batch.is_empty() {
-                batch_text.iter().map(|x| x.0.clone()).collect()
+        "batch" | "script" => eval_script(cat, case),
+        "ctor-index" => {
+            // bytes written by the real encoder: version byte 0, then the unsigned varint of the
+            // constructor's rank in the writer's index order
+            let want: u32 = case.expected.as_deref().unwrap().parse().unwrap();
+            let b = &case.input;
+            let mut got: Option<u32> = None;
+            if b.first() == Some(&0) {
+                let mut r: u32 = 0;
+                for (i, x) in b[1..].iter().take(5).enumerate() {
+                    r |= ((*x & 0x7f) as u32).wrapping_shl(7 * i as u32);
+                    if x & 0x80 == 0 {
+                        got = Some(r);
+                        break;
+                    }
+                }
+            }
+            let finding = if got == Some(want) {
+                None
             } else {
-                case.batch.iter().map(|x| x.0.clone()).collect()
+                Some(Finding {
+                    class: "index".into(),
+                    detail: format!("encoded enum starts with {} instead of version 0 and constructor rank {want}", hex(&b[..b.len().min(6)])),
+                })
             };
-            let fs: Vec<_> = names.iter().map(|n| cat.by_name(n).unwrap().decode_in).collect();
-            let (out, meter) = contain(tick_budget(case.input.len()), || {
-                let mut ctx = DeserializationContext::new(&case.input);
-                let mut vals = Vec::new();
-                for f in &fs {
-                    vals.push(f(&mut ctx)?);
-                }
-                let rem = remaining(&mut ctx);
-                Ok((vals, rem))
-            });
-            let finding = match &out {
-                Outcome::Ok((vals, rem)) => {
-                    let mut f = None;
-                    for (i, v) in vals.iter().enumerate() {
-                        let ok = if case.batch.is_empty() {
-                            format!("{v:?}") == batch_text[i].1
-                        } else {
-                            *v == case.batch[i].1
-                        };
-                        if !ok {
-                            f = Some(Finding {
-                                class: "value".into(),
-                                detail: format!("item {i} ({}) decoded {}", names[i], v.brief()),
-                            });
-                            break;
-                        }
-                    }
-                    if f.is_none() && *rem != case.input.len() - case.enc_len {
-                        f = Some(Finding {
-                            class: "consumed".into(),
-                            detail: format!("{rem} bytes left instead of {}", case.input.len() - case.enc_len),
-                        });
-                    }
-                    f
-                }
-                Outcome::Err(m) => Some(Finding { class: "rejected".into(), detail: format!("valid batch rejected: {m}") }),
-                Outcome::Panic(m) => Some(Finding { class: "panic".into(), detail: m.clone() }),
-                Outcome::Hang => Some(Finding { class: "hang".into(), detail: "step budget exhausted".into() }),
-            };
-            Evaluated { finding, outcome: out.class(), meter }
+            Evaluated { finding, outcome: "ok", meter: Meter::default() }
         }
         "truncation" => {
             let (out, meter) = real_decode(e, &case.input);
@@ -287,6 +259,109 @@ pub fn eval(cat: &Catalog, case: &Case, expected_text: Option<&str>, batch_text:
         }
         other => panic!("unknown clause {other}"),
     }
+}
+
+pub fn brief(s: &str) -> String {
+    if s.len() > 160 {
+        format!("{}…", &s[..s.char_indices().take(160).last().map(|x| x.0).unwrap_or(0)])
+    } else {
+        s.to_string()
+    }
+}
+
+/// values written one after another into one stream are read back one after another through one
+/// context; each item has its own expectation
+fn eval_script(cat: &Catalog, case: &Case) -> Evaluated {
+    let fs: Vec<_> = case
+        .batch
+        .iter()
+        .map(|(n, _)| cat.by_name(n).unwrap_or_else(|| panic!("unknown catalogue entry {n}")).decode_in)
+        .collect();
+    let input = &case.input;
+    // results of the items up to and including the first failing one
+    let (out, meter) = contain(tick_budget(input.len()), || {
+        let mut ctx = DeserializationContext::new(input);
+        let mut results: Vec<Result<Val, String>> = Vec::new();
+        for f in &fs {
+            match f(&mut ctx) {
+                Ok(v) => results.push(Ok(v)),
+                Err(e) => {
+                    results.push(Err(format!("{e:?}")));
+                    return Ok((results, None));
+                }
+            }
+        }
+        let rem = remaining(&mut ctx);
+        Ok((results, Some(rem)))
+    });
+    let finding = match &out {
+        Outcome::Ok((results, rem)) => {
+            let mut f = None;
+            let mut stopped = false;
+            for (i, r) in results.iter().enumerate() {
+                let (name, expect) = &case.batch[i];
+                let judged = i >= case.judge_from;
+                match (r, expect.as_str()) {
+                    (_, "any") => {}
+                    (Ok(v), e) if e.starts_with("ok:") => {
+                        if judged && format!("{v:?}") != e[3..] {
+                            f = Some(Finding {
+                                class: "value".into(),
+                                detail: format!("item {i} ({name}) decoded {} instead of {}", v.brief(), brief(&e[3..])),
+                            });
+                            break;
+                        }
+                    }
+                    (Ok(v), _) => {
+                        if judged {
+                            f = Some(Finding {
+                                class: "accepted".into(),
+                                detail: format!("item {i} ({name}) decoded {} where {} is the documented outcome", v.brief(), expect),
+                            });
+                        }
+                        stopped = true;
+                        break;
+                    }
+                    (Err(m), e) if e.starts_with("ok:") => {
+                        if judged {
+                            f = Some(Finding {
+                                class: "rejected".into(),
+                                detail: format!("item {i} ({name}) failed with {m} instead of decoding {}", brief(&e[3..])),
+                            });
+                        }
+                        stopped = true;
+                        break;
+                    }
+                    (Err(m), e) => {
+                        if judged && e.starts_with("err:") && !m.contains(&e[4..]) {
+                            f = Some(Finding {
+                                class: "wrong-error".into(),
+                                detail: format!("item {i} ({name}) failed with {m}, documented error is {}", &e[4..]),
+                            });
+                        }
+                        stopped = true;
+                        break;
+                    }
+                }
+            }
+            if f.is_none() && !stopped && case.check_rem {
+                if let Some(rem) = rem {
+                    let want = input.len() - case.enc_len;
+                    if *rem != want {
+                        f = Some(Finding {
+                            class: "consumed".into(),
+                            detail: format!("{rem} bytes left unread instead of {want}"),
+                        });
+                    }
+                }
+            }
+            f
+        }
+        Outcome::Err(m) => Some(Finding { class: "harness".into(), detail: m.clone() }),
+        Outcome::Panic(m) => Some(Finding { class: "panic".into(), detail: m.clone() }),
+        Outcome::Hang => Some(Finding { class: "hang".into(), detail: "step budget exhausted".into() }),
+    };
+    Evaluated { finding, outcome: out.class(), meter }
 }
 
 #[derive(Clone, Debug)]
